@@ -49,6 +49,10 @@ def analyse(repo, rep, mod, fn, cat_of_const, names, ALL_CATS):
         closed, cat, excused, failed, pinned, last = st
         if n.kind == "with_exit":
             return [((closed, cat, excused, failed, pinned, last), None)]
+        if n.kind == "with_enter" and any(suppressing(i) for i in n.ast.items):
+            # `with attempt(...) as ctx` binds a fresh context: an earlier failure is no longer
+            # visible through ctx.success
+            return [((closed, cat, excused, False, pinned, last), None)]
         if n in loops:
             if closed:
                 fails.append(("after-final", n, st, "the result loop continues after a non-Pending (final) response was sent for this request"))
@@ -267,6 +271,22 @@ def run(repo: Repo, rep: Report, tier: str) -> None:
             n_fn += 1
             analyse(repo, rep, m, fn, cat_of_const, names, all_cats)
     rep.floor("SCP functions analysed", n_fn, 25)
+
+    # ---- a primitive carrying MessageIDBeingRespondedTo is always sent as a response ------------
+    rep.rule("response-direction", "send_msg turns a primitive into a response message exactly when MessageIDBeingRespondedTo is not None (0 is a valid message ID)")
+    dimse = repo.mod("dimse")
+    sm = repo.func("dimse", "DIMSEServiceProvider.send_msg")
+    sel = [i for i in walk_no_nested(sm) if isinstance(i, ast.If) and "MessageIDBeingRespondedTo" in norm(i.test)]
+    rep.need(len(sel) == 1, "dimse.send_msg: request/response selection vanished")
+    t = sel[0].test
+    is_none = isinstance(t, ast.Compare) and len(t.ops) == 1 and norm(t.left) == "primitive.MessageIDBeingRespondedTo" and isinstance(t.comparators[0], ast.Constant) and t.comparators[0].value is None and isinstance(t.ops[0], (ast.Is, ast.IsNot, ast.Eq, ast.NotEq))
+    if is_none:
+        rq_first = isinstance(t.ops[0], (ast.Is, ast.Eq))
+        rq_branch, rsp_branch = (sel[0].body, sel[0].orelse) if rq_first else (sel[0].orelse, sel[0].body)
+        ok = any("_RQ_TO_MESSAGE[" in norm(x) for x in rq_branch) and any("_RSP_TO_MESSAGE[" in norm(x) for x in rsp_branch)
+    else:
+        ok = False
+    rep.check(ok, "response-direction", "dimse.DIMSEServiceProvider.send_msg", sel[0], "the response for a request with Message ID 0 would be sent as a *request* message (truthiness test instead of `is None`): the request never gets a final response carrying its ID", mod=dimse, node=sel[0])
 
     # ---- attempt.__exit__ ----------------------------------------------------------
     sc = repo.mod("service_class")
